@@ -310,3 +310,55 @@ Theorem C15_slice_constants :
   x_kr_decode_pk_end = 32%N /\ x_kr_decode_ck_start = 32%N /\ x_kr_checksum_len = 4%N.
 Proof. repeat split; reflexivity. Qed.
 Print Assumptions C15_slice_constants.
+
+(* layout of a locked private key and of an encoded public key: which value goes where, in the CURRENT sources
+   (tools/extract.py), tied to the model's specification-level names kr_blob / kr_scrypt / pk_blob *)
+Definition x_role_const15 (r : role) : N := match r with RConst v => v | _ => 0%N end.
+
+Theorem C15_lock_layout_constants :
+  x_kr_lock_layout_roles = [RVersion; RSalt; RCiphertext] /\
+  x_kr_lock_aead_roles = [RPassKey; RZeros x_kr_lock_nonce_len; RPrivateKey; RVersion] /\
+  x_kr_unlock_aead_roles = [RPassKey; RZeros x_kr_unlock_nonce_len; RCiphertext; RVersion] /\
+  x_kr_lock_scrypt_roles = [RPassword; RSalt; RConst x_kr_scrypt_n; RConst x_kr_scrypt_r; RConst x_kr_scrypt_p; RConst 32%N] /\
+  x_kr_unlock_scrypt_roles = x_kr_lock_scrypt_roles /\
+  (* the 84-byte blob of the model = the pieces in the extracted order, sealed with the extracted nonce and aad *)
+  (forall (P : prims) (sk pw salt : bytes),
+     kr_blob P sk pw salt =
+     match x_kr_lock_layout_roles, x_kr_lock_aead_roles with
+     | [a; b; c], [_; RZeros n; _; ad] =>
+       let part := fun r => match r with
+                            | RVersion => x_kr_private_key_version
+                            | RSalt => salt
+                            | RCiphertext => p_seal P (kr_key P pw salt) (zeros (N.to_nat n))
+                                               (match ad with RVersion => x_kr_private_key_version | _ => [] end) sk
+                            | _ => []
+                            end in
+       part a ++ part b ++ part c
+     | _, _ => []
+     end) /\
+  (* the scrypt call of the model = the arguments in the extracted order *)
+  (forall (P : prims) (len : N) (pw salt : bytes),
+     kr_scrypt P len pw salt =
+     match x_kr_lock_scrypt_roles with
+     | [a; b; n; r; p; _] =>
+       let env := fun x => match x with RPassword => pw | RSalt => salt | _ => [] end in
+       p_scrypt P (env a) (env b) (x_role_const15 n) (x_role_const15 r) (x_role_const15 p) (N.to_nat len)
+     | _ => []
+     end) /\
+  (* version ++ salt ++ ciphertext: the slices of unlock are the pieces of lock *)
+  x_kr_unlock_version_lo = 0%N /\ x_kr_unlock_version_end = N.of_nat (length x_kr_private_key_version) /\
+  x_kr_unlock_salt_lo = x_kr_unlock_version_end /\ x_kr_unlock_ct_lo = x_kr_unlock_salt_hi /\
+  (x_kr_unlock_salt_hi - x_kr_unlock_salt_lo = x_kr_lock_salt_len)%N /\ x_kr_lock_salt_len = 32%N /\
+  (x_kr_unlock_ct_hi - x_kr_unlock_ct_lo = x_lib_private_key_len + x_lib_tag_size)%N /\
+  x_kr_unlock_version_checked = 1%N /\ x_kr_encoded_sk_try_len = x_kr_private_key_ct_len /\
+  x_kr_lock_scrypt_len = x_lib_payload_key_len /\
+  (* the salts the CLI draws for lock_private_key *)
+  x_cli_gen_salt_draw = x_kr_lock_salt_len /\ x_cli_gen_salt_len = x_kr_lock_salt_len /\
+  x_cli_change_salt_draw = x_kr_lock_salt_len /\ x_cli_change_salt_len = x_kr_lock_salt_len /\
+  (* encoded public key = key ++ first bytes of sha256(key) *)
+  x_kr_encode_pk_end = x_kr_decode_pk_end /\ x_kr_encode_ck_start = x_kr_decode_ck_start /\ x_kr_encode_ck_len = x_kr_checksum_len /\
+  (x_kr_encode_pk_end + x_kr_encode_ck_len = x_kr_encoded_pk_len)%N /\ x_kr_encode_pk_end = x_kr_encode_ck_start /\
+  x_kr_encode_pk_end = x_lib_public_key_len /\ x_kr_encode_hash_of_pk = 1%N /\ x_kr_decode_hash_of_pk = 1%N /\
+  (forall (P : prims) (pk : bytes), pk_blob P pk = pk ++ firstn (N.to_nat x_kr_encode_ck_len) (p_hash P pk)).
+Proof. repeat split; intros; reflexivity. Qed.
+Print Assumptions C15_lock_layout_constants.
